@@ -400,6 +400,8 @@ func runConc(a []string) {
 			fmt.Fprintln(out, "=", concPause(dir, f[1:]))
 		case "cstress":
 			fmt.Fprintln(out, "=", concStress(dir, int(atoi(f[1])), int(atoi(f[2]))))
+		case "cgcstress":
+			fmt.Fprintln(out, "=", concGCStress(dir, int(atoi(f[1])), int(atoi(f[2]))))
 		}
 		out.Flush()
 	}
@@ -486,6 +488,98 @@ func concStress(dir string, iters, ms int) string {
 		}
 	}
 	return fmt.Sprintf("ok ops=%d linearizable (stress: no call failed)", iters)
+}
+
+// cgcstress <iterations> <ms>: readers against GC - a log of many small sealed segments, eight goroutines reading it
+// (Consume with the cursor fed back, Get, both checked against what was published) while two goroutines unload every
+// segment with GC(0) over and over, so that segments are lazily loaded by several readers at once and unloaded
+// under them.  No call may fail and no read may return anything but the published message.
+func concGCStress(dir string, iters, ms int) string {
+	for it := 0; it < iters; it++ {
+		os.RemoveAll(dir)
+		os.MkdirAll(dir, 0700)
+		l, err := klevdb.Open(dir, klevdb.Options{KeyIndex: it%2 == 0, TimeIndex: it%3 == 0, Rollover: 256})
+		if err != nil {
+			return "err open " + errClass(err)
+		}
+		const n = 60
+		for i := 0; i < n; i++ {
+			if _, err := l.Publish([]klevdb.Message{{Key: []byte(fmt.Sprintf("k%03d", i)), Value: []byte(fmt.Sprintf("value-%03d-%s", i, strings.Repeat("x", i%7)))}}); err != nil {
+				l.Close()
+				return "err setup " + errClass(err)
+			}
+		}
+		want := func(off int64) string { return fmt.Sprintf("value-%03d-%s", off, strings.Repeat("x", int(off)%7)) }
+		var stop atomic.Bool
+		done := make(chan string, 16)
+		for g := 0; g < 8; g++ {
+			go func(g int) {
+				off := int64(g * 7 % n)
+				for !stop.Load() {
+					if g%2 == 0 {
+						next, msgs, err := l.Consume(off, 4)
+						if err != nil {
+							done <- fmt.Sprintf("Consume(%d): %s: %s", off, errClass(err), err.Error())
+							return
+						}
+						for _, m := range msgs {
+							if string(m.Value) != want(m.Offset) {
+								done <- fmt.Sprintf("Consume(%d) returned offset %d with value %q", off, m.Offset, m.Value)
+								return
+							}
+						}
+						off = next
+						if off >= n {
+							off = 0
+						}
+					} else {
+						m, err := l.Get(off)
+						if err != nil {
+							done <- fmt.Sprintf("Get(%d): %s: %s", off, errClass(err), err.Error())
+							return
+						}
+						if m.Offset != off || string(m.Value) != want(off) {
+							done <- fmt.Sprintf("Get(%d) returned offset %d value %q", off, m.Offset, m.Value)
+							return
+						}
+						off = (off + 5) % n
+					}
+				}
+				done <- ""
+			}(g)
+		}
+		for g := 0; g < 2; g++ {
+			go func() {
+				for !stop.Load() {
+					if err := l.GC(0); err != nil {
+						done <- "GC: " + errClass(err) + ": " + err.Error()
+						return
+					}
+				}
+				done <- ""
+			}()
+		}
+		first := ""
+		select {
+		case first = <-done:
+		case <-time.After(time.Duration(ms) * time.Millisecond):
+		}
+		stop.Store(true)
+		for k := 0; k < 10 && first == ""; k++ {
+			select {
+			case r := <-done:
+				first = r
+			case <-time.After(5 * time.Second):
+				first = "Hang"
+			}
+		}
+		time.Sleep(20 * time.Millisecond)
+		l.Close()
+		if first != "" {
+			return fmt.Sprintf("err CallFailed iteration=%d %s", it, strings.ReplaceAll(first, "\n", " "))
+		}
+	}
+	return fmt.Sprintf("ok ops=%d linearizable (gc stress: no call failed)", iters)
 }
 
 var _ = errors.New
